@@ -180,6 +180,10 @@ def _run(case, ctx, sim):
             feat.append("busy-pool")
             if case["spec"] and case["idempotent"]:
                 feat.append("speculative")
+                free = [i for i, b in enumerate(busy) if not b]
+                if free and any(busy[free[0] + 1:]):
+                    # an attempt went out to a free host; a speculative attempt then meets a busy pool
+                    feat.append("later-host-busy")
         if not evs:
             # diagnosis only: when (if ever) does it finish?
             sim.advance(10.0)
